@@ -150,6 +150,7 @@ type Interp struct {
 	sealHook     Value
 	openOracle   Value
 	hkdfs        []*hkdfRec
+	preemptsUsed int
 }
 
 type Stats struct {
